@@ -14,6 +14,21 @@ from delphin.mrs import _operations as ops  # noqa: E402
 V = semgen.var_to_json
 
 
+def _mrs_mod():
+    from delphin.mrs import _mrs
+    return _mrs
+
+
+def _dmrs_mod():
+    from delphin.dmrs import _dmrs
+    return _dmrs
+
+
+def _util_mod():
+    from delphin import util
+    return util
+
+
 def _ids(preds):
     return [V(p.id) for p in preds]
 
@@ -240,6 +255,104 @@ class C07(Check):
     trusted_base = ["hand-written model lean/Verif/Common/Sem.lean (+ C07/Model.lean), tied to delphin.mrs / "
                     "delphin.scope / delphin.dmrs / delphin.util by the correspondence run",
                     "harness/common/semgen.py converters (object <-> JSON)"]
+
+    # ---- pins: constants of the anchored code that the shared Sem model hand-codes
+    PIN_FUNCS = [
+        ("IsConnected", lambda: ops.is_connected),
+        ("HasIvProperty", lambda: ops.has_intrinsic_variable_property),
+        ("HasCompleteIvs", lambda: ops.has_complete_intrinsic_variables),
+        ("HasUniqueIvs", lambda: ops.has_unique_intrinsic_variables),
+        ("PlausiblyScopes", lambda: ops.plausibly_scopes),
+        ("IsWellFormed", lambda: ops.is_well_formed),
+        ("EpInit", lambda: mrs.EP.__init__),
+        ("EpIsQuantifier", lambda: mrs.EP.is_quantifier),
+        ("UniquifyIds", lambda: _mrs_mod()._uniquify_ids),
+        ("MrsArguments", lambda: mrs.MRS.arguments),
+        ("MrsScopes", lambda: mrs.MRS.scopes),
+        ("MrsScopalArguments", lambda: mrs.MRS.scopal_arguments),
+        ("MrsIsQuantifier", lambda: mrs.MRS.is_quantifier),
+        ("MrsProperties", lambda: mrs.MRS.properties),
+        ("Conjoin", lambda: scope.conjoin),
+        ("Descendants", lambda: scope.descendants),
+        ("DescendantsRec", lambda: scope._descendants),
+        ("Representatives", lambda: scope.representatives),
+        ("RepPriority", lambda: scope._make_representative_priority),
+        ("DmrsScopes", lambda: _dmrs_mod().DMRS.scopes),
+        ("DmrsNormalize", lambda: _dmrs_mod()._normalize_top_and_links),
+        ("NodeEq", lambda: _dmrs_mod().Node.__eq__),
+        ("Bfs", lambda: _util_mod()._bfs),
+        ("ConnectedComponents", lambda: _util_mod()._connected_components),
+        ("VariableSplit", lambda: variable.split),
+        ("VarFactoryInit", lambda: variable.VariableFactory.__init__),
+        ("VarFactoryNew", lambda: variable.VariableFactory.new),
+    ]
+
+    def tables(self):
+        """Pins (read from the live code objects on every run): for each anchored function its
+        constants (`co_consts`, nested code objects of comprehensions / inner functions flattened in
+        order between `<name>` … `</>`; docstrings and exception-message texts dropped), the global
+        and attribute names it refers to (`co_names`, nested ones included), and its default argument
+        values; the module-level constants; the compiled variable pattern; the EP id formats by
+        behaviour."""
+        import types
+        from .common import tables as T
+        lit = T.lean_strlit
+
+        def walk(code, doc):
+            cs, ns = [], list(code.co_names)
+            for c in code.co_consts:
+                if isinstance(c, types.CodeType):
+                    sub_c, sub_n = walk(c, None)
+                    cs.append("<%s>" % c.co_name)
+                    cs.extend(sub_c)
+                    cs.append("</>")
+                    ns.extend(n for n in sub_n)
+                elif isinstance(c, str) and doc and c == doc:
+                    continue
+                elif isinstance(c, str) and c.lower().startswith("invalid"):
+                    continue          # message text
+                elif isinstance(c, frozenset):
+                    cs.append("frozenset(%r)" % (sorted(c, key=repr),))
+                else:
+                    cs.append(repr(c))
+            return cs, ns
+
+        def slist(xs):
+            return "[%s]" % ", ".join(lit(x) for x in xs)
+        out = []
+        for name, get in self.PIN_FUNCS:
+            fn = get()
+            cs, ns = walk(fn.__code__, fn.__doc__)
+            dflt = [repr(d) for d in (fn.__defaults__ or ())] + \
+                   ["%s=%r" % kv for kv in sorted((fn.__kwdefaults__ or {}).items())]
+            out.append("def c07%sConsts : List String := %s" % (name, slist(cs)))
+            out.append("def c07%sNames : List String := %s" % (name, slist(ns)))
+            out.append("def c07%sDefaults : List String := %s" % (name, slist(dflt)))
+        M, D = _mrs_mod(), _dmrs_mod()
+        out.append("def c07VariableSorts : List String := %s" % slist(
+            [variable.UNSPECIFIC, variable.INDIVIDUAL, variable.INSTANCE_OR_HANDLE, variable.EVENTUALITY,
+             variable.INSTANCE, variable.HANDLE]))
+        out.append("def c07VariablePattern : String := %s" % lit(variable._variable_re.pattern))
+        out.append("def c07VariablePatternFlags : Nat := %d" % int(variable._variable_re.flags))
+        out.append("def c07MrsRoles : List String := %s" % slist(
+            [M.INTRINSIC_ROLE, M.RESTRICTION_ROLE, M.BODY_ROLE, M.CONSTANT_ROLE, M._QUANTIFIER_TYPE]))
+        out.append("def c07ScopeRelations : List String := %s" % slist(
+            [scope.LEQ, scope.LHEQ, scope.OUTSCOPES, scope.QEQ]))
+        out.append("def c07UntensedValues : List String := %s" % slist(sorted(scope._UNTENSED_VALUES)))
+        out.append("def c07DmrsConstants : List String := %s" % slist(
+            [repr(D.TOP_NODE_ID), repr(D.FIRST_NODE_ID), D.RESTRICTION_ROLE, D.BARE_EQ_ROLE, D.EQ_POST, D.HEQ_POST,
+             D.NEQ_POST, D.H_POST, D.NIL_POST, D.CVARSORT]))
+        # EP id formats by behaviour: ARG0 only / quantifier / no ARG0 / quantifier without ARG0 ; then
+        # three predications with the same ARG0 (ids after _uniquify_ids); the label a DMRS gives its 1st node
+        probes = [mrs.EP("p", "h1", {"ARG0": "x5"}).id, mrs.EP("p", "h1", {"ARG0": "x5", "RSTR": "h2"}).id,
+                  mrs.EP("p", "h1", {}).id, mrs.EP("p", "h1", {"RSTR": "h2"}).id]
+        m3 = mrs.MRS(rels=[mrs.EP("p", "h1", {"ARG0": "x5"}), mrs.EP("p", "h1", {"ARG0": "x5"}),
+                           mrs.EP("p", "h1", {"ARG0": "x5"})])
+        probes += [ep.id for ep in m3.rels]
+        probes.append(variable.VariableFactory(starting_vid=1).new(variable.HANDLE))
+        out.append("def c07IdProbes : List (String × Nat) := [%s]" % ", ".join(
+            "(%s, %d)" % (lit(V(x)[0]), V(x)[1]) for x in probes))
+        return out
 
     # ---- generators
     heavy_limit = 20000
